@@ -4,10 +4,12 @@
   uninitialised parser / failures are std::exception" is runtime behaviour that no Lean model
   can exhibit; harness/drive_cpp.cpp (ASan+UBSan, poisoned stack) decides that part.
 
-  Serialize half (all trees, any insertion order, both the 1000-byte first try and the retry):
-  proved below.  Deserialize half: see the end of this file.
+  Serialize half (all trees, any insertion order, both the 1000-byte first try and the retry) and
+  deserialize half (round trips; "returns normally exactly when verify at depth 10 accepts", for
+  ARBITRARY bytes; overload 3 on a parser that has been used before) are proved below for the model.
 -/
 import Binson.Lemmas.CppSer
+import Binson.Lemmas.Walk
 namespace Binson
 
 /-- `serialize()` of the map content `fs` is the canonical encoding of the object — whatever the
@@ -41,6 +43,36 @@ theorem c15_serialize_verifies (fs : Fields) (hi : insOkF fs = true)
     (init (garbageParser 10) (cppSerialize (putAllF fs .nil)).toArray 1).2 = true ∧
     (verify (init (garbageParser 10) (cppSerialize (putAllF fs .nil)).toArray 1).1).2.1 = true :=
   cppSerialize_putAll_verifies fs hi hd hsz
+
+
+/-! ### Deserialize half (Lemmas/Walk*.lean) -/
+
+/-- deserialize(serialize(x)) = x for every tree of admissible values with object nesting ≤ 10, built by
+    put() calls in any order -/
+theorem c15_roundtrip_tree (ins : Fields) (hi : insOkF ins = true) (hd : fits 10 255 (.obj ins) = true)
+    (hsz : (encode (.obj ins)).length < 2 ^ 63) :
+    cppDeserialize (cppSerialize (putAllF ins .nil)).toArray = .ok (putAllF ins .nil) :=
+  cppDes_cppSer_putAll ins hi hd hsz
+
+/-- for ARBITRARY bytes (length 0 and 1 included): deserialize returns normally EXACTLY when verify at the
+    wrapper's depth limit of 10 accepts the bytes; otherwise the model returns an error (= throws) -/
+theorem c15_returns_iff_verify (bytes : Array UInt8) (hsz : bytes.size < 2 ^ 63) :
+    (∃ fs, cppDeserialize bytes = .ok fs) ↔
+    ((init (garbageParser 10) bytes 1).2 = true ∧ (verify (init (garbageParser 10) bytes 1).1).2.1 = true) :=
+  cppDes_iff bytes hsz
+
+/-- and when it returns, the tree is the decoded document and serialize(deserialize(bytes)) = bytes -/
+theorem c15_roundtrip_bytes (bytes : Array UInt8) (hsz : bytes.size < 2 ^ 63) (fs : Fields) (h : cppDeserialize bytes = .ok fs) :
+    wfDoc .object 10 (.obj fs) = true ∧ encode (.obj fs) = bytes.toList ∧ cppSerialize fs = bytes.toList :=
+  cppDes_ok_canonical bytes hsz fs h
+
+/-- overload 3 (`deserialize(binson_parser*)`) on ANY shaped parser object — fresh, in the middle of a
+    traversal, or with its error flag set — over ARBITRARY bytes: returns the tree iff the bytes are the
+    canonical encoding of that tree within the parser's depth limit (the reset at its start makes the
+    result independent of the parser's history) -/
+theorem c15_parser_overload (W : Parser) (hs : Shape W) (hpt : W.ptype = 1) (hmd255 : W.maxDepth ≤ 255) (fs : Fields) :
+    cppDeserializeP W = .ok fs ↔ (wfDoc .object W.maxDepth (.obj fs) = true ∧ encode (.obj fs) = W.buf.toList) :=
+  cppDesP_iff W hs hpt hmd255 fs
 
 /-- non-vacuity: b, a, b inserted in that order -/
 example : putAllF (.cons [0x62] (.int 1) (.cons [0x61] (.bool true) (.cons [0x62] (.int 2) .nil))) .nil
